@@ -60,8 +60,12 @@ var Logger syslog.Logger = Quiet
 
 // InstallRealLogger switches the process to the repository's own logger implementation at level
 // Error (exercises its code paths under the race detector; little output).
-func InstallRealLogger() {
+func InstallRealLogger(prefixes ...string) {
 	Logger = syslog.New(syslog.LvError)
+	// (an application-supplied logger usually carries prefixes of its own)
+	for _, p := range prefixes {
+		Logger = Logger.Pref(p)
+	}
 	syslog.SetLogger(Logger)
 }
 
